@@ -67,6 +67,35 @@ def _substituted(cal: FuncInfo, call: ast.Call) -> FuncInfo:
     return clone
 
 
+def _guarded_by_deref(fn: ast.AST, ret: ast.AST, name: str) -> bool:
+    """ret sits in the true branch of an `if` whose test reads an attribute of `name` (so `name` is not None there)."""
+    def walk(stmts, guarded):
+        for st in stmts:
+            if st is ret:
+                return guarded
+            if isinstance(st, ast.If):
+                g2 = guarded or any(isinstance(a, ast.Attribute) and isinstance(a.value, ast.Name) and a.value.id == name for a in ast.walk(st.test))
+                r = walk(st.body, g2)
+                if r is not None:
+                    return r
+                r = walk(st.orelse, guarded)
+                if r is not None:
+                    return r
+            else:
+                for fld in ("body", "orelse", "finalbody"):
+                    sub = getattr(st, fld, None)
+                    if isinstance(sub, list) and sub and isinstance(sub[0], ast.stmt):
+                        r = walk(sub, guarded)
+                        if r is not None:
+                            return r
+                for h in getattr(st, "handlers", []) or []:
+                    r = walk(h.body, guarded)
+                    if r is not None:
+                        return r
+        return None
+    return bool(walk(getattr(fn, "body", []), False))
+
+
 def inline(
     root: FuncInfo,
     resolver,
@@ -160,8 +189,13 @@ def inline(
                         elif isinstance(v, ast.Name):
                             # a local whose every definition is a non-None expression (e.g. the result of queue.get_nowait())
                             defs = [x.value for x in ast.walk(t.node) if isinstance(x, ast.Assign) and any(isinstance(tt, ast.Name) and tt.id == v.id for tt in x.targets)]
+                            # `(only,) = bucket` / `first, *_ = bucket`: an element of a container expression, judged like `bucket[0]`
+                            defs += [ast.Subscript(value=x.value, slice=ast.Constant(value=0), ctx=ast.Load()) for x in ast.walk(t.node) if isinstance(x, ast.Assign)
+                                     and any(isinstance(tt, (ast.Tuple, ast.List)) and any(isinstance(el, ast.Name) and el.id == v.id for el in tt.elts) for tt in x.targets)]
                             known = bool(defs) and all(not (isinstance(dv, ast.Constant) and dv.value is None) and not isinstance(dv, (ast.IfExp, ast.Name)) for dv in defs) \
                                 and v.id not in [a.arg for a in t.params()]
+                            if not known and _guarded_by_deref(t.node, rn.ast, v.id):
+                                known = True  # returned under a test that already dereferenced it (`if x.key == k: return x`)
                             rn.meta["ret_none"] = False if known else None
                         else:
                             rn.meta["ret_none"] = False
@@ -327,6 +361,13 @@ def traces(
                 l = l.value
             if isinstance(l, ast.Await):
                 l = l.value
+            if isinstance(l, ast.Name):
+                # `x = f()` ... `if x is None`: every assignment of x in that function is the same inlined call
+                vals = [a.value for a in ast.walk(n.func.node) if isinstance(a, ast.Assign) and any(isinstance(t, ast.Name) and t.id == l.id for t in a.targets)]
+                vals += [a.value for a in ast.walk(n.func.node) if isinstance(a, ast.AnnAssign) and isinstance(a.target, ast.Name) and a.target.id == l.id and a.value is not None]
+                vals = [v.value if isinstance(v, ast.Await) else v for v in vals]
+                if len(vals) == 1 and isinstance(vals[0], ast.Call):
+                    l = vals[0]
             if isinstance(l, ast.Call) and id(l) in sites:
                 ret_test[n.id] = (id(l), isinstance(n.ast.ops[0], ast.IsNot))
     relevant = set(sym) | set(exits) | set(corr_test) | set(corr_store) | set(ret_nodes) | set(ret_test)
@@ -538,11 +579,19 @@ def eval_cond(e: ast.AST, env: dict, func=None) -> bool | None:
             v = env.get(f"{rt} == {lt}")
         if v is None:
             v = _env_fn(env, key, ast.Compare(left=l, ops=[pos()], comparators=[r]))
+        if v is None and isinstance(l, ast.Constant) and pos is ast.Is and isinstance(r, ast.Constant):
+            v = l.value is r.value
         if v is None and isinstance(l, ast.Name):
             # `tmp = a.b.c` ... `if tmp is None`: classify the comparison on the attribute chain the temporary stands for
             d = _single_local_def(func, l.id)
             if isinstance(d, (ast.Attribute, ast.Name, ast.Subscript)):
                 v = _env_fn(env, f"{atom_text(d)} {_OPTXT.get(pos, pos.__name__)} {rt}", ast.Compare(left=d, ops=[pos()], comparators=[r]))
+            elif isinstance(d, ast.IfExp):
+                # `tmp = A if T else B`: decide T first, then compare the chosen arm
+                tv = eval_cond(d.test, env, func)
+                if tv is not None:
+                    arm = d.body if tv else d.orelse
+                    v = eval_cond(ast.Compare(left=arm, ops=[pos()], comparators=[r]), env, func)
         if v is None:
             return None
         return (not v) if neg else v
